@@ -296,7 +296,7 @@ func runValues(u *vk.Unit, p *reg.Package, meta Meta, pkg string) {
 		rt := p.Types[n]
 		schema, isComp := comps[n]
 		for _, class := range []valgen.Class{valgen.Core, valgen.Hostile} {
-			bld := &valgen.Builder{Class: class, Variants: p.Variants}
+			bld := &valgen.Builder{Class: class, Variants: p.Variants, Types: p.Types}
 			g := rapid.Custom(func(t *rapid.T) reflect.Value { return bld.Build(t, rt, 0) })
 			for i := 0; i < per/2; i++ {
 				seed := int(vk.Seed())*100003 + i
